@@ -1,10 +1,23 @@
 use crate::*;
 use std::collections::{HashMap, HashSet};
 
+/// Upper bound on instantiate/collect rounds: an instance may call further generic
+/// functions, and polymorphic recursion (`f<T>` calling `f<[T]>`) would never settle.
+const MAX_MONO_ROUNDS: usize = 64;
+
 pub fn monomorphize(mut program: AirProgram) -> AirProgram {
     let mut ctx = MonoContext::new(&program);
     ctx.collect_mono_requests(&program);
-    ctx.instantiate(&mut program);
+    for _ in 0..MAX_MONO_ROUNDS {
+        let first_new = program.functions.len();
+        ctx.instantiate(&mut program);
+        if program.functions.len() == first_new {
+            break;
+        }
+        // the new instances are ordinary callers now: their calls of generic
+        // functions (with the substituted argument types) need instances too
+        ctx.collect_requests_from_instances(&program, first_new);
+    }
     ctx.rewrite_call_sites(&mut program);
     program.functions.retain(|f| f.type_params.is_empty());
     program
@@ -47,6 +60,14 @@ impl MonoContext {
             if func.type_params.is_empty() {
                 self.collect_from_function(func, program, &generic_names);
             }
+        }
+    }
+
+    fn collect_requests_from_instances(&mut self, program: &AirProgram, first_new: usize) {
+        let generic_names: HashSet<String> = self.generic_functions.keys().cloned().collect();
+        self.requests.clear();
+        for func in &program.functions[first_new..] {
+            self.collect_from_function(func, program, &generic_names);
         }
     }
 
